@@ -95,6 +95,18 @@ def run_case(case, tier):
     extra = rng.choice(([], [], ["-d"], ["--protonate-all"]))
     if not extra:
         extra = util.neutral_options(rng, classes=classes)
+    if case["kind"] != "file" and rng.random() < 0.2:
+        # together with a titrate-only list (the same list in both runs): residues of selected chains, of
+        # unselected chains, or of unselected chains only - deleting those chains turns the latter into entries
+        # that name nothing
+        res_ = [r_ for r_ in util.titratable_residues(recs) if r_[0] != " "]
+        inside = [r_ for r_ in res_ if r_[0] in subset]
+        outside = [r_ for r_ in res_ if r_[0] not in subset]
+        pick_ = {"in": inside, "both": inside[:2] + outside[:2], "out": outside}[rng.choice(("in", "both", "out", "out"))]
+        if pick_:
+            pick_ = rng.sample(pick_, min(len(pick_), 3))
+            extra = extra + ["-i", ",".join(util.res_arg(r_) for r_ in pick_)]
+            classes.append("with-titrate-only-list")
     full = pdbio.dump(recs)
     cut = pdbio.dump([r for r in recs if r.raw is not None or r.chain in subset])
     ra = obs.run_single(full, opts + extra)
